@@ -1,10 +1,10 @@
 // C12: base58-monero and Address text/blob/hex/consensus forms (public API only).
 use crate::{show_hex, unhex};
 use curve25519_dalek::edwards::CompressedEdwardsY;
-use hex::FromHex;
+use hex::{FromHex, ToHex};
 use monero::consensus::encode::{deserialize, serialize};
 use monero::util::address::{Address, AddressType, PaymentId};
-use monero::{Network, PublicKey};
+use monero::{KeyPair, Network, PrivateKey, PublicKey, ViewPair};
 use std::str::FromStr;
 
 fn net(s: &str) -> Option<Network> {
@@ -111,18 +111,43 @@ pub fn run(op: &str, args: &[&str]) -> Option<String> {
             Some(dump(deserialize::<Address>(&b)))
         }
         ("addr_fmt", [n, t, s, v]) => {
-            let a = Address {
-                network: net(n)?,
-                addr_type: atype(t)?,
-                public_spend: pk(s)?,
-                public_view: pk(v)?,
+            // built through the constructor of its type (not a struct literal)
+            let (n, t, s, v) = (net(n)?, atype(t)?, pk(s)?, pk(v)?);
+            let a = match t {
+                AddressType::Standard => Address::standard(n, s, v),
+                AddressType::SubAddress => Address::subaddress(n, s, v),
+                AddressType::Integrated(p) => Address::integrated(n, s, v, p),
             };
             Some(format!(
-                "OK {} {} {} {}",
+                "OK {} {} {} {} {} {} {}",
                 show_hex(&a.as_bytes()),
                 show_hex(a.to_string().as_bytes()),
                 show_hex(a.as_hex().as_bytes()),
-                show_hex(&serialize(&a))
+                show_hex(&serialize(&a)),
+                show_hex(a.encode_hex::<String>().as_bytes()),
+                show_hex(a.encode_hex_upper::<String>().as_bytes()),
+                show_hex(a.addr_type.to_string().as_bytes())
+            ))
+        }
+        ("addr_of_keys", [n, v, s]) => {
+            let n = net(n)?;
+            let (v, s) = (unhex(v)?, unhex(s)?);
+            let (view, spend) = match (PrivateKey::from_slice(&v), PrivateKey::from_slice(&s)) {
+                (Ok(v), Ok(s)) => (v, s),
+                _ => return Some("ERR".to_string()),
+            };
+            let a = Address::from_keypair(n, &KeyPair { view, spend });
+            let b = Address::from_viewpair(
+                n,
+                &ViewPair {
+                    view,
+                    spend: PublicKey::from_private_key(&spend),
+                },
+            );
+            Some(format!(
+                "OK {} {}",
+                show_hex(a.to_string().as_bytes()),
+                show_hex(b.to_string().as_bytes())
             ))
         }
         _ => None,
